@@ -42,12 +42,13 @@ fn main() {
     };
     scenarios::rt::seed_rng(seed);
     let mut n = 0;
-    for sc in &all {
-        if let Some(w) = &wanted {
-            if !w.iter().any(|x| *x == sc.name) {
-                continue;
-            }
-        }
+    // run in exactly the order given on the command line (the driver relies on it to name the
+    // scenario that was running when Miri stopped the program)
+    let order: Vec<&scenarios::Scenario> = match &wanted {
+        Some(w) => w.iter().filter_map(|x| all.iter().find(|s| s.name == *x)).collect(),
+        None => all.iter().collect(),
+    };
+    for sc in order {
         for _ in 0..reps {
             let o = (sc.run)();
             println!("T|{}|{}|{:016x}|{}|{}", sc.name, o.nontrivial as u8, o.trace_hash, o.params, o.trace);
